@@ -402,7 +402,8 @@ pub fn make_solver_ctor(kind: &DynKind, h: MonHandle, backend: Backend, ctor: &s
 // history generation
 // ---------------------------------------------------------------------------------------------
 
-pub const SHAPES: [&str; 9] = [
+pub const SHAPES: [&str; 10] = [
+    "load-then-query-all",
     "hub-churn",
     "random",
     "query-after-every-update",
@@ -611,6 +612,38 @@ pub fn gen_history(rng: &mut Rng, kind: &DynKind, shape: &str, max_len: usize, f
                 } else {
                     g.update(&[4, 1, 6, 2]);
                 }
+            }
+        }
+        "load-then-query-all" => {
+            // a framework with planted choice structure (lattice / layered / union of small components, 4-9
+            // arguments) is declared in a random order, every argument is queried (twice), then a few updates
+            // follow, each batch followed by all queries again: statuses that depend on the declaration order
+            let abs = match g.rng.below(4) {
+                0 | 1 => crate::gen::lattice(g.rng, 8),
+                2 => crate::gen::layered_component(g.rng, 8),
+                _ => crate::gen::union_family(g.rng, 9),
+            };
+            let abs = crate::gen::shuffle_labels(&abs, g.rng);
+            let base = *g.rng.pick(&[0usize, 1, 10]);
+            let labels: Vec<usize> = (0..abs.n).map(|i| base + i).collect();
+            g.universe = labels.clone();
+            if g.universe.is_empty() {
+                g.universe.push(base);
+            }
+            for l in labels.iter() {
+                g.push_upd(Op::AddArg(*l));
+            }
+            let mut att = abs.att.clone();
+            g.rng.shuffle(&mut att);
+            for (a, b) in att {
+                g.push_upd(Op::AddAtt(labels[a], labels[b]));
+            }
+            g.query_all_twice();
+            for _ in 0..g.rng.range(0, 3) {
+                for _ in 0..g.rng.range(1, 3) {
+                    g.update(&[1, 1, 4, 3]);
+                }
+                g.query_all_twice();
             }
         }
         "query-after-every-update" => {
